@@ -381,7 +381,7 @@ func (sel *Selection) Delete() (err error) {
 	}
 	defer func() {
 		if endErr := sel.endEdit(NodeRequest{Source: sel, Delete: true, EditRoot: true}, true); endErr != nil {
-			err = fmt.Errorf("error during endEdit: %v, previous error: %w", endErr, err)
+			err = wrapEndEditErr(endErr, err)
 		}
 	}()
 
@@ -410,6 +410,15 @@ func (sel *Selection) Delete() (err error) {
 		}
 	}
 	return
+}
+
+// wrapEndEditErr keeps both the error of EndEdit and the error that was already
+// on its way out reachable through errors.Is / errors.As
+func wrapEndEditErr(endErr error, prev error) error {
+	if prev == nil {
+		return fmt.Errorf("error during endEdit: %w", endErr)
+	}
+	return fmt.Errorf("error during endEdit: %w, previous error: %w", endErr, prev)
 }
 
 func findIntParam(params map[string][]string, param string) (int, bool) {
